@@ -25,10 +25,11 @@ RULE = (
     "preserved and every key value (NA = one key class) occurs in exactly one output partition (partitions computed "
     "individually). sort: sort_values(by 1-2 columns, ascending (list), na_position, npartitions) and set_index(col, "
     "npartitions | divisions | sorted=True on a sorted column, drop); oracle: the sequence of sort keys equals pandas' "
-    "(stable sort of the whole frame) and the multiset of rows equals pandas (order within equal keys is free). "
+    "(stable sort of the whole frame) and the multiset of rows equals pandas (order within equal keys is free), judged on "
+    "compute() AND on the partitions taken in order (to_delayed). "
     "dedup: drop_duplicates(subset, keep first|last, split_out, ignore_index), Series.unique, Series/DataFrame.nunique "
     "(dropna); oracle: pandas as multisets (with a subset only the subset columns are determined; every result row must "
-    "be an input row). Non-trivial: >=3 input and >=3 output partitions with duplicate keys (shuffle: multi-stage), "
+    "be an input row; with split_out=1, i.e. no shuffle, the kept ROWS must equal pandas' first/last occurrence). Non-trivial: >=3 input and >=3 output partitions with duplicate keys (shuffle: multi-stage), "
     "NA among the keys for at least part of the cases."
 )
 ASSUMPTIONS = [
